@@ -68,6 +68,42 @@ def classify(d):
     return [bool(_C.is_namedtuple_class(obj)), bool(py_nt(obj)), bool(_C.is_structseq_class(obj)), bool(py_ss(obj))]
 
 
+def twin_mismatches(d):
+    """every engine / Python twin pair of optree.typing on the generated class (or object) and on an instance of it"""
+    import collections
+    import time as _time
+    obj = build_class(d)
+    subjects = [('generated', obj)]
+    if isinstance(obj, type):
+        for mk in (lambda: obj(()), lambda: obj()):
+            try:
+                subjects.append(('instance', mk()))
+                break
+            except Exception:  # noqa: BLE001
+                pass
+    P = collections.namedtuple('P', ['x', 'y'])
+    subjects += [('namedtuple class', P), ('namedtuple instance', P(1, 2)), ('structseq class', _time.struct_time),
+                 ('structseq instance', _time.gmtime(0)), ('plain tuple', (1, 2)), ('int', 3)]
+    names = ['is_namedtuple', 'is_namedtuple_instance', 'is_namedtuple_class', 'is_structseq',
+             'is_structseq_instance', 'is_structseq_class', 'namedtuple_fields', 'structseq_fields']
+    out = []
+
+    def run(f, x):
+        try:
+            r = f(x)
+            return ('ok', r if isinstance(r, tuple) else bool(r))
+        except Exception as e:  # noqa: BLE001
+            return ('err', type(e).__name__)
+    for label, x in subjects:
+        for n in names:
+            w = getattr(optree, n)
+            cxx, py = run(w.__cxx_implementation__, x), run(w.__python_implementation__, x)
+            pub = run(w, x)
+            if cxx != py or pub != cxx:
+                out.append(f'{n}({label}): engine {cxx}, Python twin {py}, public {pub}')
+    return out
+
+
 def sort_twin(u, keys):
     d = {k: i for i, k in enumerate(keys)}
     engine = optree.tree_structure(d).entries()
